@@ -38,6 +38,7 @@ func (p Personality) String() string {
 
 type Config struct {
 	Host, CDNHost string
+	AltHosts      []string // further hostnames served like Host (mirrors)
 	Base          Personality
 	Fickle        bool // personality drawn per request
 	Redirect      bool // blob requests at the registry host are redirected to the CDN host
@@ -229,8 +230,22 @@ func parseRanges(h string, size int64) ([][2]int64, bool) {
 	return out, true
 }
 
+func (r *Registry) isAlt(h string) bool {
+	for _, a := range r.Cfg.AltHosts {
+		if a == h {
+			return true
+		}
+	}
+	return false
+}
+
 func (r *Registry) blobFor(rec *Request, req *http.Request) (digest string, data []byte, status int) {
 	host, p := req.URL.Host, req.URL.Path
+	for _, a := range r.Cfg.AltHosts {
+		if host == a {
+			host = r.Cfg.Host
+		}
+	}
 	switch host {
 	case r.Cfg.Host:
 		i := strings.Index(p, "/blobs/")
@@ -278,7 +293,7 @@ func (r *Registry) serve(t *simrt.Task, rec *Request, req *http.Request, fault s
 	}
 	size := int64(len(data))
 	// redirect at the registry host
-	if req.URL.Host == r.Cfg.Host && r.Cfg.Redirect {
+	if (req.URL.Host == r.Cfg.Host || r.isAlt(req.URL.Host)) && r.Cfg.Redirect {
 		r.nextTok++
 		id := fmt.Sprintf("t%d", r.nextTok)
 		r.tokens[id] = &token{digest: digest}
